@@ -136,12 +136,12 @@ Proof.
     split; [exact Hp|reflexivity].
 Qed.
 
-Lemma pop_value_out : forall fuel s v s', wst_ok inp s -> wlive s -> (length (wrest s) < fuel)%nat ->
-  pop_value fuel s = WOk v s' -> value_out v s' /\ wstep inp s s'.
+Lemma pop_value_out : forall fuel depth s v s', wst_ok inp s -> wlive s -> (length (wrest s) < fuel)%nat ->
+  pop_value fuel depth s = WOk v s' -> value_out v s' /\ wstep inp s s'.
 Proof.
-  induction fuel as [|f IH]; intros s v s' Hok Hl Hf; [lia|].
+  induction fuel as [|f IH]; intros depth s v s' Hok Hl Hf; [lia|].
   intros E. split.
-  2:{ pose proof (pop_value_spec inp (S f) s Hok Hl Hf) as H. unfold value_res in H. rewrite E in H. apply H. }
+  2:{ pose proof (pop_value_spec inp (S f) depth s Hok Hl Hf) as H. unfold value_res in H. rewrite E in H. apply H. }
   revert E. cbn [pop_value].
   destruct (tt_eqb (next_type s) IDENT) eqn:E1.
   { apply tt_eqb_true in E1.
@@ -160,14 +160,15 @@ Proof.
   rewrite E. cbn [wbind].
   assert (Hr : wrest s <> []). { apply (next_type_not_eof inp); auto. rewrite E3. discriminate. }
   specialize (Hlen Hr).
+  destruct (N.leb max_value_depth depth); [discriminate|].
   destruct (tt_eqb (next_type s1) RBRACK) eqn:E4.
   { destruct (pop_token s1) as [t2 s2|t2 s2|p|] eqn:E2'; try discriminate. cbn [wbind]. intros [= <- <-].
     apply tt_eqb_true in E4.
     destruct (pop_token_pne s1 t2 s2 (ws_ok _ _ _ Hst) (wstep_live _ _ _ Hst) E2') as [Hp Hh];
       [rewrite E4; discriminate|rewrite E4; discriminate|].
     split; [exact Hp|reflexivity]. }
-  apply (pop_elems_out (pop_value f) f op).
-  - intros s2 v0 s3 Hok2 Hl2 Hb Ev. apply IH; assumption.
+  apply (pop_elems_out (pop_value f (N.succ depth)) f op).
+  - intros s2 v0 s3 Hok2 Hl2 Hb Ev. eapply IH; eassumption.
   - apply Hst.
   - eapply wstep_live; eauto.
   - lia.
@@ -191,8 +192,8 @@ Proof.
     assert (Hd : wbind (pop_token s0) (fun t s1 => WErr (A:=tag) t s1) = WOk t s' -> pne s').
     { destruct (pop_token s0); discriminate. }
     destruct (next_type s0); auto.
-    unfold pop_value_top. destruct (pop_value (S (length (wrest s0))) s0) as [v s1|t1 s1|p|] eqn:Ev; try discriminate.
-    cbn [wbind]. intros [= _ <-]. apply (pop_value_out _ _ _ _ Hok0 Hl0 (Nat.lt_succ_diag_r _) Ev). }
+    unfold pop_value_top. destruct (pop_value (S (length (wrest s0))) 0%N s0) as [v s1|t1 s1|p|] eqn:Ev; try discriminate.
+    cbn [wbind]. intros [= _ <-]. apply (pop_value_out _ _ _ _ _ Hok0 Hl0 (Nat.lt_succ_diag_r _) Ev). }
   destruct (pop_token_spec inp s Hok Hl) as (t0 & s1 & E & Hst & _).
   pose proof (Hafter MarkNone None s Hok Hl) as Hnone.
   assert (Hmark : forall mk, wbind (pop_token s) (fun t0 s1 =>
